@@ -31,6 +31,48 @@ theorem code128_row_reads_symbols (P : List (List Nat)) (hWF : wfRow128B P = tru
                             right2 := 2 * (lq + s * 11 * (body.length + 1)) + s * 11, symMod := m } :=
   decodeRow_symbol P hWF sc hsc body hb lq s rq (by omega) gs1
 
+/-- row level from symbol level: whatever symbol characters `codes` the writer chose (shape: values below STOP, then
+    STOP) and drew as `mods`, if the symbol-level reader returns `contents` for them then so does the row decoder on the
+    rendered row, at every scale and quiet zone -/
+theorem code128_row_of_symbols (T : Tables) (hT : wfRow128B T.code128 = true) (contents codes : List Nat)
+    (mods : List Bool) (hread : code128ReadCodes codes = .ok contents)
+    (hshape : ∃ body, codes = body ++ [106] ∧ ∀ c ∈ body, c < 106) (hdraw : code128Draw T codes = .ok mods)
+    (lq s rq : Nat) (hs : 1 ≤ s) :
+    ∃ out, Row128.decodeRow exactDom T.code128 (paddedRow lq s rq mods) false = .ok out ∧
+      out.text = contents ∧ out.raw = codes ∧
+      out.left2 = 2 * lq + s * 11 ∧ out.right2 = 2 * (lq + s * 11 * (out.raw.length - 1)) + s * 11 := by
+  have hWF128 : WF128 T.code128 = true := by
+    simp only [wfRow128B, Bool.and_eq_true] at hT
+    exact hT.1.1
+  obtain ⟨body', rfl, hb'⟩ := hshape
+  -- the first symbol character is a start code (else `code128ReadCodes` fails)
+  obtain ⟨sc, body, rfl, hsc⟩ : ∃ sc body, body' = sc :: body ∧ (sc = 103 ∨ sc = 104 ∨ sc = 105) := by
+    cases body' with
+    | nil => simp [code128ReadCodes] at hread
+    | cons sc body =>
+      refine ⟨sc, body, rfl, ?_⟩
+      simp only [List.cons_append, code128ReadCodes] at hread
+      split at hread
+      · cases hread
+      · omega
+  have hb : ∀ c ∈ body, c < 106 := fun c hc => hb' c (by simp [hc])
+  rw [code128Draw_runs T hWF128 (sc :: body) hb'] at hdraw
+  cases hdraw
+  have hrow := decodeRow_symbol T.code128 hT sc hsc body hb lq s rq (by omega) false
+  rw [List.cons_append] at hread
+  have htext := readSyms_text sc hsc (body ++ [106])
+  rw [hread] at htext
+  cases hrs : readSyms false sc (body ++ [106]) with
+  | error e => rw [hrs] at htext; cases htext
+  | ok r =>
+    obtain ⟨t, m⟩ := r
+    rw [hrs] at htext hrow
+    simp only [Except.ok.injEq] at htext
+    subst htext
+    refine ⟨_, hrow, rfl, rfl, rfl, ?_⟩
+    have hl : (sc :: body ++ [106]).length - 1 = body.length + 1 := by simp
+    simp only [hl]
+
 /-- Clause "Code 128: ASCII 0-127 up to 80 chars incl. digit runs that trigger code set C and control characters that
     trigger code set A … read(write(c)) == c", FULL on the row-decoder model at every scale and every quiet zone:
     for every ASCII content the writer accepts (no forced code set) and the module pattern `mods` it draws, the row
@@ -42,43 +84,32 @@ theorem code128_row_read_write (T : Tables) (hT : wfRow128B T.code128 = true) (c
     ∃ out, Row128.decodeRow exactDom T.code128 (paddedRow lq s rq mods) false = .ok out ∧
       out.text = contents ∧ code128Codes contents none = .ok out.raw ∧
       out.left2 = 2 * lq + s * 11 ∧ out.right2 = 2 * (lq + s * 11 * (out.raw.length - 1)) + s * 11 := by
-  have hWF128 : WF128 T.code128 = true := by
-    simp only [wfRow128B, Bool.and_eq_true] at hT
-    exact hT.1.1
   unfold code128Modules at h
   simp only [bind, Except.bind] at h
   split at h
   · cases h
   · rename_i codes hcodes
-    have hread := Properties.C03.code128_codeset_inv contents codes hascii hcodes
-    obtain ⟨body', rfl, hb'⟩ := codes_shape contents _ hascii hcodes
-    -- the first symbol character is a start code (else `code128ReadCodes` fails)
-    obtain ⟨sc, body, rfl, hsc⟩ : ∃ sc body, body' = sc :: body ∧ (sc = 103 ∨ sc = 104 ∨ sc = 105) := by
-      cases body' with
-      | nil => simp [code128ReadCodes] at hread
-      | cons sc body =>
-        refine ⟨sc, body, rfl, ?_⟩
-        simp only [List.cons_append, code128ReadCodes] at hread
-        split at hread
-        · cases hread
-        · omega
-    have hb : ∀ c ∈ body, c < 106 := fun c hc => hb' c (by simp [hc])
-    rw [code128Draw_runs T hWF128 (sc :: body) hb'] at h
-    cases h
-    have hrow := decodeRow_symbol T.code128 hT sc hsc body hb lq s rq (by omega) false
-    rw [List.cons_append] at hread
-    have htext := readSyms_text sc hsc (body ++ [106])
-    rw [hread] at htext
-    cases hrs : readSyms false sc (body ++ [106]) with
-    | error e => rw [hrs] at htext; cases htext
-    | ok r =>
-      obtain ⟨t, m⟩ := r
-      rw [hrs] at htext hrow
-      simp only [Except.ok.injEq] at htext
-      subst htext
-      refine ⟨_, hrow, rfl, hcodes, rfl, ?_⟩
-      have hl : (sc :: body ++ [106]).length - 1 = body.length + 1 := by simp
-      simp only [hl]
+    obtain ⟨out, h1, h2, h3, h4, h5⟩ := code128_row_of_symbols T hT contents codes mods
+      (Properties.C03.code128_codeset_inv contents codes hascii hcodes) (codes_shape contents codes hascii hcodes) h
+      lq s rq hs
+    exact ⟨out, h1, h2, by rw [h3]; exact hcodes, h4, h5⟩
+
+/-- Clause "Code 128 … and each forced code set": the same with the FORCE_CODE_SET hint A, B or C -/
+theorem code128_row_read_write_forced (T : Tables) (hT : wfRow128B T.code128 = true) (f : Nat)
+    (hf : f = 99 ∨ f = 100 ∨ f = 101) (contents : List Nat) (mods : List Bool)
+    (hascii : ∀ c ∈ contents, c < 128) (h : code128Modules T contents (some f) = .ok mods)
+    (lq s rq : Nat) (hs : 1 ≤ s) :
+    ∃ out, Row128.decodeRow exactDom T.code128 (paddedRow lq s rq mods) false = .ok out ∧
+      out.text = contents ∧ code128Codes contents (some f) = .ok out.raw := by
+  unfold code128Modules at h
+  simp only [bind, Except.bind] at h
+  split at h
+  · cases h
+  · rename_i codes hcodes
+    obtain ⟨out, h1, h2, h3, _⟩ := code128_row_of_symbols T hT contents codes mods
+      (Properties.C03.code128_forced_inv f hf contents codes hascii hcodes)
+      (codes_shape_forced f hf contents codes hascii hcodes) h lq s rq hs
+    exact ⟨out, h1, h2, by rw [h3]; exact hcodes⟩
 
 /-- the same through the writer's own rendering (`onedWriter_renderResult`, one pixel row): at EVERY requested width and
     EVERY margin ≥ 0 (the default is 10) the rendered row is read back -/
